@@ -2,11 +2,10 @@
    instances of RDSPARSER_BUFFER_UPDATE, translated on every run (GenMid.v), are the model's
    buffer_update: same return value, same new accepted value, same new candidate, for ALL values
    (no range restriction: the decision is made of equality tests only). *)
-Require Export Model GenMid.
+Require Export Lemmas_MidBase.
 Require Import ZifyBool.
 Local Open Scope Z_scope.
 
-Definition b2z (b : bool) : Z := if b then 1 else 0.
 
 (* the C function of each buffered scalar, as (return value, new candidate, new accepted value) *)
 Definition m_buffer_update (f : sfield) : Z -> Z -> Z -> Z -> Z * Z * Z :=
@@ -16,15 +15,6 @@ Definition m_buffer_update (f : sfield) : Z -> Z -> Z -> Z -> Z * Z * Z :=
   | SCountry => m_buffer_update_country
   end.
 
-(* case analysis on every atomic comparison that occurs, then evaluation *)
-Ltac decide_atoms :=
-  repeat match goal with
-         | |- context [?a =? ?b] => destruct (a =? b) eqn:?
-         | |- context [?a <? ?b] => destruct (a <? b) eqn:?
-         | |- context [?a <=? ?b] => destruct (a <=? b) eqn:?
-         | |- context [?a >=? ?b] => destruct (a >=? b) eqn:?
-         | |- context [?a >? ?b] => destruct (a >? b) eqn:?
-         end.
 
 Theorem mid_buffer_update : forall f v s,
   m_buffer_update f (getf f (temp s)) (getf f (used s)) (b2z (ext s)) v
